@@ -946,3 +946,91 @@ Example C02_pipe_write_nonvacuous :
   nrun_op f2 (NWrite WPipe 0 1) = f2 /\
   dirty_flag (nb f3) = true /\ disk (nb f3) = [foo] /\ ln (lb (nb f3)) = [foo; foo].
 Proof. vm_compute. repeat split. Qed.
+
+(* ================================================================================================================== *)
+(* Round i/j: EVERY quit form over a table of buffers with or without a NAME (DirtyAllDefs.v: ec_quit_n = ec_quit of ex.c for q,
+   wq, x, xa, each with or without `!`, any argument of the write part; the `a` forms hand every occupied slot to lbuf_save; what a
+   save of a path answers is the environment's, one boolean per call; a slot with the empty path cannot be created, ever) *)
+From NV Require Import DirtyAllDefs DirtyAllProps.
+
+(* for ALL tables (any length, any occupancy, named and unnamed buffers, each in a state with the invariant of its history), every
+   quit form without `!` and xa! too, any target of the write part, any answers of the environment: IF the editor exits THEN every
+   buffer's file holds that buffer's text (the buffer was clean, or it has just been written successfully), no buffer without a
+   name holds text, and the texts are the ones the buffers had *)
+Theorem C02_quit_all_forms_sound : forall (c : qcmd) (bang : bool) (t : wtarget) (tab : ntable) (sch : list bool)
+    (t' : ntable) (cl : list (option nat)) (s' : list bool),
+  (bang = false \/ q_all c = true) -> Forall NInv (noccupied tab) ->
+  ec_quit_n c bang t tab sch = (t', true, cl, s') ->
+  length t' = length tab /\
+  Forall (fun f => ln (lb (nb f)) = disk (nb f)) (noccupied t') /\
+  Forall (fun f => nname f = None -> ln (lb (nb f)) = []) (noccupied t') /\
+  map (fun f => ln (lb (nb f))) (noccupied t') = map (fun f => ln (lb (nb f))) (noccupied tab).
+Proof. exact quit_all_forms_sound. Qed.
+Print Assumptions C02_quit_all_forms_sound.
+
+(* in particular: while a buffer without a name that is not the current one holds text, none of these forms exits -- whatever the
+   other buffers are, wherever it sits, whatever the saves answer *)
+Theorem C02_unnamed_text_no_exit : forall (c : qcmd) (bang : bool) (t : wtarget) (tab : ntable) (sch : list bool) (f : nbuf),
+  (bang = false \/ q_all c = true) -> Forall NInv (noccupied tab) ->
+  In (Some f) (tl tab) -> nname f = None -> ln (lb (nb f)) <> [] ->
+  snd (fst (fst (ec_quit_n c bang t tab sch))) = false.
+Proof. exact unnamed_text_no_exit. Qed.
+Print Assumptions C02_unnamed_text_no_exit.
+
+(* the loop of the `a` forms: if it exits, the names handed to lbuf_save are those of ALL occupied slots in slot order -- no slot
+   skipped --, every slot has a name, every file holds its buffer's text, one answer of the environment was used per slot *)
+Theorem C02_xa_every_slot_saved : forall (bang : bool) (tab : ntable) (sch : list bool) (t' : ntable) (cl : list (option nat)) (s' : list bool),
+  Forall NInv (noccupied tab) ->
+  quit_n true bang [] tab sch [] = (t', true, cl, s') ->
+  cl = map nname (noccupied tab) /\ Forall (fun f => nname f <> None) (noccupied tab) /\
+  Forall (fun f => ln (lb (nb f)) = disk (nb f)) (noccupied t') /\
+  map (fun f => ln (lb (nb f))) (noccupied t') = map (fun f => ln (lb (nb f))) (noccupied tab) /\
+  (length (noccupied tab) <= length sch -> s' = skipn (length (noccupied tab)) sch).
+Proof. exact xa_every_slot_saved. Qed.
+Print Assumptions C02_xa_every_slot_saved.
+
+(* and one save that fails, of whichever slot, stops the quit *)
+Theorem C02_xa_failed_save_no_exit : forall (bang : bool) (tab : ntable) (sch : list bool) (k : nat),
+  nth_error sch k = Some false -> (k < length (noccupied tab))%nat ->
+  snd (fst (fst (quit_n true bang [] tab sch []))) = false.
+Proof. exact xa_failed_save_no_exit. Qed.
+Print Assumptions C02_xa_failed_save_no_exit.
+
+(* FINDING on the unchanged tree (design.d/C02.md, fixes/C02-xa-saved-unmarked.patch), stated on the model and replayed on the real
+   editor: a REFUSED :xa has written the buffers in front of the refusing slot without recording it (no lbuf_saved).  Table: g (current,
+   clean), f (its file holds `foo`; the text was changed to `bar`), the unnamed start-up buffer.  :xa writes g and f (the file of f holds
+   `bar` now) and is refused at the unnamed slot.  One `u` in f: the buffer is reported CLEAN (the undo position is the one of the
+   last :w / read), its text is `foo`, its file holds `bar` -- and :q over [f; unnamed empty buffer; g] exits. *)
+Theorem C02_xa_refused_partial_save_refuted :
+  exists (tab : ntable) (f' : nbuf),
+    Forall NInv (noccupied tab) /\
+    let '(t', q, _, _) := ec_quit_n CXa false WOwn tab [] in
+    q = false /\ nth_error t' 2 = Some (Some f') /\ nname f' = Some 1%nat /\
+    let f'' := nrun f' [NUndo; NBump] in
+    dirty_flag (nb f'') = false /\ ln (lb (nb f'')) <> disk (nb f'') /\
+    snd (fst (fst (ec_quit_n CQ false WOwn (Some f'' :: firstn 2 t') []))) = true.
+Proof. exact xa_refused_partial_save. Qed.
+Print Assumptions C02_xa_refused_partial_save_refuted.
+
+(* not vacuous: the same table without the unnamed buffer exits with both files holding the texts (names 2 and 1 handed to lbuf_save);
+   with the unnamed buffer holding text in slot 2: xa and xa! are refused and that buffer becomes the current one, q stops at the
+   modified f; with the EMPTY, untouched unnamed buffer xa is refused all the same (more refusal, never less) while q / x exit
+   once f is written; a failing save of f stops xa *)
+Example C02_quit_all_nonvacuous :
+  let foo := [102; 111; 111; 10]%N in let bar := [98; 97; 114; 10]%N in
+  let g := nbuf_open foo 2 in
+  let f := nrun (nbuf_open foo 1) [NBump; NEdit (Some bar) 0 1; NBump] in
+  let fw := nrun f [NWrite WOwn 0 1; NBump] in
+  let u := nrun nbuf_new [NBump; NEdit (Some foo) 0 0; NBump] in
+  (let '(t', q, cl, _) := ec_quit_n CXa false WOwn [Some g; Some f; None] [] in
+     q = true /\ cl = [Some 2%nat; Some 1%nat] /\ map (fun x => disk (nb x)) (noccupied t') = [[foo]; [bar]]) /\
+  (let '(t', q, cl, _) := ec_quit_n CXa false WOwn [Some g; Some f; Some u] [] in
+     q = false /\ cl = [Some 2%nat; Some 1%nat; None] /\ map nname (noccupied t') = [None; Some 2%nat; Some 1%nat]) /\
+  snd (fst (fst (ec_quit_n CXa true WOwn [Some g; Some f; Some u] []))) = false /\
+  (let '(t', q, _, _) := ec_quit_n CQ false WOwn [Some g; Some f; Some u] [] in
+     q = false /\ map nname (noccupied t') = [Some 1%nat; Some 2%nat; None]) /\
+  snd (fst (fst (ec_quit_n CXa false WOwn [Some g; Some fw; Some nbuf_new] []))) = false /\
+  snd (fst (fst (ec_quit_n CQ false WOwn [Some g; Some fw; Some nbuf_new] []))) = true /\
+  snd (fst (fst (ec_quit_n CX false WOwn [Some g; Some fw; Some nbuf_new] []))) = true /\
+  snd (fst (fst (ec_quit_n CXa false WOwn [Some g; Some f; None] [true; false]))) = false.
+Proof. vm_compute. repeat split. Qed.
